@@ -701,3 +701,613 @@ Proof.
     split; [exact F|]. split; [intros k Hk; apply K; apply kset_keeps; exact Hk|].
     intros g' p' [E|H]; [inversion E; subst; apply K; apply kset_has|exact (C g' p' H)].
 Qed.
+
+(* ------------------------------------------------------------------ map_segments is append-only *)
+Definition extends (m m' : list (key * N)) : Prop := exists ext, m' = m ++ ext.
+Lemma extends_refl m : extends m m. Proof. exists []. rewrite app_nil_r. reflexivity. Qed.
+Lemma extends_trans m1 m2 m3 : extends m1 m2 -> extends m2 m3 -> extends m1 m3.
+Proof. intros [e1 ->] [e2 ->]. exists (e1 ++ e2). rewrite app_assoc. reflexivity. Qed.
+Lemma extends_In m m' x : extends m m' -> In x m -> In x m'.
+Proof. intros [e ->] H. apply in_or_app. left. exact H. Qed.
+Lemma extends_kget m m' k g : extends m m' -> kget m k = Some g -> kget m' k = Some g.
+Proof. intros [e ->] H. apply kget_app_mono. exact H. Qed.
+Lemma extends_len m m' : extends m m' -> lenN m <= lenN m'.
+Proof. intros [e ->]. unfold lenN. rewrite app_length. lia. Qed.
+Lemma entry_ok_ext m m' e : extends m m' -> entry_ok m e -> entry_ok m' e.
+Proof. intros [x ->]. apply entry_ok_app. Qed.
+
+Lemma classify_step_ext cf sn cn x st part :
+  extends (r_map (cs_reg st)) (r_map (cs_reg (fst (classify_step cf sn cn x (st, part))))).
+Proof.
+  destruct x as [s o]. unfold classify_step.
+  destruct (classify_key cf s o) as [[kf kb] sr].
+  destruct (kget (r_map (cs_reg st)) (kf, kb)) as [gid|] eqn:Eg.
+  - destruct ((kf =? MISS) && (kb =? MISS)); cbn [fst cs_reg set_reg r_map]; apply extends_refl.
+  - destruct (split_attempt cf (r_map (cs_reg st)) s o kf kb sr sn cn part) as [[adds incr]|].
+    + cbn [fst cs_reg]. apply extends_refl.
+    + unfold register_key. rewrite Eg. cbn [fst cs_reg set_reg r_map]. eexists. reflexivity.
+Qed.
+Lemma fold_steps_ext cf sn cn l st part : extends (r_map (cs_reg st)) (r_map (cs_reg (fst (fold_steps cf sn cn l (st, part))))).
+Proof.
+  revert st part. induction l as [|x l IH]; intros st part; unfold fold_steps; cbn [fold_left fst]; [apply extends_refl|].
+  destruct (classify_step cf sn cn x (st, part)) as [st1 part1] eqn:E.
+  pose proof (classify_step_ext cf sn cn x st part) as H. rewrite E in H. cbn [fst] in H.
+  eapply extends_trans; [exact H|]. apply IH.
+Qed.
+Lemma classify_all_ext cf l st : extends (r_map (cs_reg st)) (r_map (cs_reg (fold_left (classify_contig cf) l st))).
+Proof.
+  revert st. induction l as [|c l IH]; intro st; cbn [fold_left]; [apply extends_refl|].
+  eapply extends_trans; [|apply IH]. rewrite classify_contig_eq. apply fold_steps_ext.
+Qed.
+Lemma fold_or_insert_ext batch : forall m, extends m (fold_left (fun m x => or_insert m (fst x) (snd x)) batch m).
+Proof.
+  induction batch as [|[k g] batch IH]; intro m; cbn [fold_left fst snd]; [apply extends_refl|].
+  eapply extends_trans; [|apply IH]. unfold or_insert. destruct (kget m k); [apply extends_refl|eexists; reflexivity].
+Qed.
+
+Lemma classify_round_ext cf ord r contigs :
+  wf r -> perm_ord ord -> nowrap (cs_reg (classify_round cf ord r contigs)) ->
+  extends (r_map r) (r_map (cs_reg (classify_round cf ord r contigs))).
+Proof.
+  intros W Po Hw. pose proof (classify_round_spec cf ord r contigs W Po Hw) as (I & _).
+  revert Hw I. unfold classify_round. destruct contigs as [|c0 cs]; [intros; apply extends_refl|].
+  set (st := fold_left (classify_contig cf) (sort_contigs (c0 :: cs)) (cstate_of r)).
+  destruct (process_new (r_map (cs_reg st)) (r_gc (cs_reg st)) (r_vlen (cs_reg st)) (cs_vl st) (ord (rev (cs_news st))))
+    as [[[m' next'] vlen'] vl'] eqn:Ep. cbn [cs_reg set_reg r_map]. intros Hw _.
+  eapply extends_trans; [exact (classify_all_ext cf (sort_contigs (c0 :: cs)) (cstate_of r))|]. fold st.
+  (* process_new appends *)
+  revert Ep. unfold process_new. destruct (pn_assign _ _ _ _) as [mk nx].
+  generalize (if r_vlen (cs_reg st) <? nx then nx else r_vlen (cs_reg st)) as vl0.
+  generalize (cs_vl st) as vl1. generalize (r_map (cs_reg st)) as m0.
+  induction (ord (rev (cs_news st))) as [|[k p] news IH]; intros m0 vl1 vl0; cbn [pn_move].
+  - intro E. inversion E; subst. apply extends_refl.
+  - destruct (kget m0 k).
+    + apply IH.
+    + destruct (kget mk k).
+      * intro E. specialize (IH _ _ _ E). eapply extends_trans; [|exact IH]. eexists. reflexivity.
+      * apply IH.
+Qed.
+
+(* ------------------------------------------------------------------ one sync round *)
+Lemma round_spec cf ord r contigs r' out lg :
+  wf r -> perm_ord ord -> round cf ord r contigs = (r', out, lg) -> nowrap r' ->
+  wf r' /\ extends (r_map r) (r_map r') /\
+  (forall k b, kget (r_bufs r) k = Some b -> kget (r_bufs r') k = Some b) /\
+  (forall e, In e lg -> entry_ok (r_map r') e) /\
+  Permutation (map snd out) (map (fun e => fst (fst e)) lg) /\
+  (forall lbl p, In (lbl, p) out ->
+     exists g k b, In (g, p) (map log_pair lg) /\ bkey (r_map r') g k /\ kget (r_bufs r') k = Some b /\ b_gid b = lbl) /\
+  (forall p g, In (p, orphan_key, g) lg -> kget (r_map r') (g, MISS) <> None).
+Proof.
+  intros W Po E Hw. unfold round in E.
+  set (st := classify_round cf ord r contigs) in *.
+  assert (Hst : nowrap (cs_reg st)).
+  { revert E. destruct (cs_vl st) as [|v vl]; [intro E; inversion E; subst; exact Hw|].
+    cbn [process_new pn_assign pn_move]. destruct (place_all _ _ _ _) as [[bufs' ss'] out'].
+    intro E. inversion E; subst; clear E. unfold nowrap in *. cbn [r_map] in Hw.
+    match type of Hw with lenN (fold_left ?f ?b ?m) + _ < _ => pose proof (extends_len _ _ (fold_or_insert_ext b m)) end. lia. }
+  destruct (classify_round_spec cf ord r contigs W Po Hst) as (I & Hnews & [Bb Bs] & _). fold st in I, Hnews, Bb, Bs.
+  pose proof (classify_round_ext cf ord r contigs W Po Hst) as Ext. fold st in Ext.
+  pose proof (ci_link _ I) as Link. rewrite Hnews in Link. cbn [map] in Link. rewrite app_nil_r in Link.
+  assert (Wb : binv (r_map (cs_reg st)) (r_bufs (cs_reg st))).
+  { rewrite Bb. split; [exact (wf_bkeys _ W)|]. intros k b H. destruct (wf_bufs _ W k b H) as [H1|[H1 H2]]; [left; exact H1|right].
+    split; [exact H1|]. eapply extends_In; eassumption. }
+  destruct (cs_vl st) as [|v vl] eqn:Evl.
+  - (* nothing buffered *)
+    inversion E; subst r' out lg; clear E.
+    assert (Hlog : cs_log st = []).
+    { destruct (cs_log st); [reflexivity|]. apply Permutation_sym, Permutation_nil in Link. discriminate. }
+    split.
+    { constructor; [exact (ci_m _ I)|exact (ci_vlen _ I)|rewrite Bb; exact (wf_bkeys _ W)|exact (proj2 Wb)]. }
+    split; [exact Ext|]. split; [rewrite Bb; auto|]. rewrite Hlog. cbn [rev map].
+    split; [intros e []|]. split; [constructor|]. split; [intros lbl p []|intros p g []].
+  - rewrite <- Evl in *. clear Evl v vl.
+    cbn [process_new pn_assign pn_move] in E.
+    set (m2 := r_map (cs_reg st)) in *. set (gc := r_gc (cs_reg st)) in *.
+    set (vlen2 := if r_vlen (cs_reg st) <? gc then gc else r_vlen (cs_reg st)) in *.
+    set (coll := collect (cs_vl st) (N.to_nat vlen2) 0) in *.
+    destruct (ci_vlen _ I) as [Hv1 Hv2]. fold gc in Hv1.
+    assert (Evlen : vlen2 = r_vlen (cs_reg st)) by (unfold vlen2; destruct (N.ltb_spec (r_vlen (cs_reg st)) gc); [lia|reflexivity]).
+    assert (Hcoll : Permutation coll (cs_vl st)).
+    { apply collect_perm. intros [g p] H. cbn [fst]. rewrite Evlen. eapply gid_ok_lt; [exact (ci_m _ I)|exact Hv1|exact Hv2|].
+      exact (ci_vl _ I g p H). }
+    assert (Hok : forall g p, In (g, p) coll -> gid_ok m2 g).
+    { intros g p H. apply (ci_vl _ I g p). eapply Permutation_in; [exact Hcoll|exact H]. }
+    destruct (place_all m2 (r_bufs (cs_reg st)) _ coll) as [[bufs' ss'] out'] eqn:Ep.
+    inversion E; subst r' out lg; clear E. cbn [r_map r_gc r_vlen r_bufs] in *.
+    destruct (place_all_spec _ _ _ _ _ _ _ Hok Wb Ep) as (Ib & Mb & F).
+    destruct (batch_spec m2 coll Hok [] (Forall_nil _)) as (Fb & _ & Cb). cbn zeta in Fb, Cb.
+    set (batch := fold_left (fun b x => kset b (key_of_gid m2 (fst x)) (fst x)) coll []) in *.
+    destruct (cleanup_spec batch m2 gc (ci_m _ I) Fb) as (I3 & M3 & In3 & _ & P3). cbn zeta in I3, M3, In3, P3.
+    set (m3 := fold_left (fun m x => or_insert m (fst x) (snd x)) batch m2) in *.
+    assert (Ext3 : extends m2 m3) by apply fold_or_insert_ext.
+    split.
+    { constructor; cbn [r_map r_gc r_vlen r_bufs].
+      - exact I3.
+      - rewrite Evlen. split; assumption.
+      - exact (proj1 Ib).
+      - intros k b H. destruct (proj2 Ib k b H) as [H1|[H1 H2]]; [left; exact H1|right; split; [exact H1|apply In3; exact H2]]. }
+    split; [eapply extends_trans; eassumption|].
+    split; [intros k b H; apply Mb; rewrite Bb; exact H|].
+    split.
+    { intros e He. apply in_rev in He. eapply entry_ok_ext; [exact Ext3|]. exact (ci_log _ I e He). }
+    assert (Hsnd : map snd out' = map snd coll).
+    { clear -F. induction F as [|c o l l' [H _] _ IH]; cbn [map]; [reflexivity|]. rewrite IH, H. reflexivity. }
+    split.
+    { rewrite Hsnd. eapply Permutation_trans; [apply Permutation_map; exact Hcoll|].
+      eapply Permutation_trans; [apply Permutation_map; apply Permutation_sym; exact Link|].
+      rewrite map_map. unfold log_pair. cbn [snd]. rewrite map_rev. apply Permutation_rev. }
+    split.
+    { intros lbl p Hin.
+      assert (Hx : exists c, In c coll /\ snd c = p /\ exists b, kget bufs' (key_of_gid m2 (fst c)) = Some b /\ b_gid b = lbl).
+      { clear -F Hin. induction F as [|c o l l' [H1 H2] _ IH]; [destruct Hin|]. destruct Hin as [Hin|Hin].
+        - subst o. cbn [fst snd] in *. exists c. split; [left; reflexivity|]. split; [exact H1|exact H2].
+        - destruct (IH Hin) as (c' & Hc & Hr). exists c'. split; [right; exact Hc|exact Hr]. }
+      destruct Hx as ([g p'] & Hc & Ep' & b & Eb & Lb). cbn [fst snd] in *. subst p'.
+      exists g, (key_of_gid m2 g), b. split.
+      { rewrite map_rev. apply in_rev. rewrite rev_involutive. eapply Permutation_in; [apply Permutation_sym; exact Link|].
+        eapply Permutation_in; [exact Hcoll|exact Hc]. }
+      split; [|split; [exact Eb|exact Lb]].
+      destruct (key_of_gid_bkey m2 g (Hok g p Hc)) as [H|[H1 H2]]; [left; exact H|right; split; [exact H1|apply In3; exact H2]]. }
+    intros p g Hin. apply in_rev in Hin.
+    assert (Hg : g < NRAW).
+    { destruct (ci_log _ I _ Hin) as [[_ H]|H]; cbn [fst snd] in *; [exact H|].
+      rewrite (mi_orph _ _ (ci_m _ I)) in H. inversion H. rewrite NRAW_eq. lia. }
+    assert (Hc : In (g, p) coll).
+    { eapply Permutation_in; [apply Permutation_sym; exact Hcoll|]. eapply Permutation_in; [exact Link|].
+      apply in_map_iff. exists (p, orphan_key, g). split; [reflexivity|exact Hin]. }
+    apply P3. specialize (Cb g p Hc). unfold key_of_gid in Cb. destruct (N.ltb_spec g NRAW); [exact Cb|lia].
+Qed.
+
+(* ------------------------------------------------------------------ unconditional: the map only ever grows *)
+Lemma process_new_ext m next vlen vl news m' next' vlen' vl' :
+  process_new m next vlen vl news = (m', next', vlen', vl') -> extends m m'.
+Proof.
+  unfold process_new. destruct (pn_assign _ _ _ _) as [mk nx].
+  generalize (if vlen <? nx then nx else vlen) as vl0. revert m vl.
+  induction news as [|[k p] news IH]; intros m0 vl1 vl0; cbn [pn_move].
+  - intro E. inversion E; subst. apply extends_refl.
+  - destruct (kget m0 k).
+    + apply IH.
+    + destruct (kget mk k).
+      * intro E. specialize (IH _ _ _ E). eapply extends_trans; [|exact IH]. eexists. reflexivity.
+      * apply IH.
+Qed.
+Lemma classify_round_ext0 cf ord r contigs : extends (r_map r) (r_map (cs_reg (classify_round cf ord r contigs))).
+Proof.
+  unfold classify_round. destruct contigs as [|c0 cs]; [apply extends_refl|].
+  set (st := fold_left (classify_contig cf) (sort_contigs (c0 :: cs)) (cstate_of r)).
+  destruct (process_new (r_map (cs_reg st)) (r_gc (cs_reg st)) (r_vlen (cs_reg st)) (cs_vl st) (ord (rev (cs_news st))))
+    as [[[m' next'] vlen'] vl'] eqn:Ep. cbn [cs_reg set_reg r_map].
+  eapply extends_trans; [exact (classify_all_ext cf (sort_contigs (c0 :: cs)) (cstate_of r))|]. fold st.
+  eapply process_new_ext. exact Ep.
+Qed.
+Lemma round_ext0 cf ord r contigs : extends (r_map r) (r_map (fst (fst (round cf ord r contigs)))).
+Proof.
+  unfold round. set (st := classify_round cf ord r contigs).
+  pose proof (classify_round_ext0 cf ord r contigs) as H. fold st in H.
+  destruct (cs_vl st); [cbn [fst]; exact H|].
+  cbn [process_new pn_assign pn_move]. destruct (place_all _ _ _ _) as [[bufs' ss'] out']. cbn [fst r_map].
+  eapply extends_trans; [exact H|]. apply fold_or_insert_ext.
+Qed.
+Lemma run_ext0 cf ord rounds : forall r, extends (r_map r) (r_map (fst (fst (run_rounds cf ord r rounds)))).
+Proof.
+  induction rounds as [|c tl IH]; intro r; cbn [run_rounds]; [apply extends_refl|].
+  pose proof (round_ext0 cf ord r c) as H. destruct (round cf ord r c) as [[r1 out] lg]. cbn [fst] in H.
+  specialize (IH r1). destruct (run_rounds cf ord r1 tl) as [[r2 outs] lgs]. cbn [fst] in *.
+  eapply extends_trans; eassumption.
+Qed.
+Lemma nowrap_ext r r' : extends (r_map r) (r_map r') -> nowrap r' -> nowrap r.
+Proof. intros H Hw. apply extends_len in H. unfold nowrap in *. lia. Qed.
+
+Lemma bkey_ext m m' g k : extends m m' -> bkey m g k -> bkey m' g k.
+Proof. intros X [H|[H1 H2]]; [left; exact H|right; split; [exact H1|eapply extends_In; eassumption]]. Qed.
+
+(* ------------------------------------------------------------------ any number of rounds *)
+Definition stored_rel (m : list (key * N)) (bufs : list (key * buf)) (out : list (N * placed)) (lg : list (placed * key * N)) : Prop :=
+  forall lbl p, In (lbl, p) out ->
+    exists g k b, In (g, p) (map log_pair lg) /\ bkey m g k /\ kget bufs k = Some b /\ b_gid b = lbl.
+
+Lemma run_spec cf ord : perm_ord ord -> forall rounds r r' outs lgs,
+  wf r -> run_rounds cf ord r rounds = (r', outs, lgs) -> nowrap r' ->
+  wf r' /\ extends (r_map r) (r_map r') /\
+  (forall k b, kget (r_bufs r) k = Some b -> kget (r_bufs r') k = Some b) /\
+  (forall e, In e (concat lgs) -> entry_ok (r_map r') e) /\
+  Forall2 (fun out lg => Permutation (map snd out) (map (fun e => fst (fst e)) lg)) outs lgs /\
+  Forall2 (stored_rel (r_map r') (r_bufs r')) outs lgs /\
+  (forall p g, In (p, orphan_key, g) (concat lgs) -> kget (r_map r') (g, MISS) <> None).
+Proof.
+  intros Po. induction rounds as [|c tl IH]; intros r r' outs lgs W E Hw; cbn [run_rounds] in E.
+  - inversion E; subst. split; [exact W|]. split; [apply extends_refl|]. split; [auto|]. cbn [concat].
+    split; [intros e []|]. split; [constructor|]. split; [constructor|intros p g []].
+  - destruct (round cf ord r c) as [[r1 out] lg] eqn:E1.
+    destruct (run_rounds cf ord r1 tl) as [[r2 outs2] lgs2] eqn:E2. inversion E; subst r' outs lgs; clear E.
+    assert (X12 : extends (r_map r1) (r_map r2)).
+    { pose proof (run_ext0 cf ord tl r1) as H. rewrite E2 in H. exact H. }
+    assert (Hw1 : nowrap r1) by (eapply nowrap_ext; eassumption).
+    destruct (round_spec cf ord r c r1 out lg W Po E1 Hw1) as (W1 & X1 & B1 & L1 & P1 & S1 & C1).
+    destruct (IH r1 r2 outs2 lgs2 W1 E2 Hw) as (W2 & X2 & B2 & L2 & P2 & S2 & C2).
+    split; [exact W2|]. split; [eapply extends_trans; eassumption|]. split; [auto|]. cbn [concat].
+    split.
+    { intros e He. apply in_app_or in He. destruct He as [He|He]; [|exact (L2 e He)]. eapply entry_ok_ext; [exact X2|exact (L1 e He)]. }
+    split; [constructor; assumption|]. split.
+    { constructor; [|exact S2]. intros lbl p Hin. destruct (S1 lbl p Hin) as (g & k & b & H1 & H2 & H3 & H4).
+      exists g, k, b. split; [exact H1|]. split; [eapply bkey_ext; eassumption|]. split; [apply B2; exact H3|exact H4]. }
+    intros p g Hin. apply in_app_or in Hin. destruct Hin as [Hin|Hin]; [|exact (C2 p g Hin)].
+    pose proof (C1 p g Hin) as H. destruct (kget (r_map r1) (g, MISS)) eqn:Eg; [|contradiction].
+    rewrite (extends_kget _ _ _ _ X2 Eg). discriminate.
+Qed.
+
+(* ------------------------------------------------------------------ orphans: round robin over the raw groups *)
+Definition is_orph (e : placed * key * N) : bool := key_eqb (snd (fst e)) orphan_key.
+Definition orph_count (l : list (placed * key * N)) : nat := length (filter is_orph l).
+Lemma orph_count_app l1 l2 : orph_count (l1 ++ l2) = (orph_count l1 + orph_count l2)%nat.
+Proof. unfold orph_count. rewrite filter_app, app_length. reflexivity. Qed.
+Lemma orph_count_rev l : orph_count (rev l) = orph_count l.
+Proof.
+  induction l as [|e l IH]; [reflexivity|]. cbn [rev]. rewrite orph_count_app, IH. unfold orph_count. cbn [filter].
+  destruct (is_orph e); cbn [length]; lia.
+Qed.
+
+(* newest-first log of a round in progress; [s] = raw_group_counter at the start of the round *)
+Definition rr_inv (s : N) (st : cstate) : Prop :=
+  r_rgc (cs_reg st) mod NRAW = (s + N.of_nat (orph_count (cs_log st))) mod NRAW /\
+  forall l1 e l2, cs_log st = l1 ++ e :: l2 -> is_orph e = true -> snd e = (s + N.of_nat (orph_count l2)) mod NRAW.
+
+Lemma rr_cons_other s (log : list (placed * key * N)) e rgc :
+  is_orph e = false ->
+  (rgc mod NRAW = (s + N.of_nat (orph_count log)) mod NRAW /\
+   forall l1 e' l2, log = l1 ++ e' :: l2 -> is_orph e' = true -> snd e' = (s + N.of_nat (orph_count l2)) mod NRAW) ->
+  (rgc mod NRAW = (s + N.of_nat (orph_count (e :: log))) mod NRAW /\
+   forall l1 e' l2, e :: log = l1 ++ e' :: l2 -> is_orph e' = true -> snd e' = (s + N.of_nat (orph_count l2)) mod NRAW).
+Proof.
+  intros He [H1 H2]. split.
+  - unfold orph_count in *. cbn [filter]. rewrite He. exact H1.
+  - intros l1 e' l2 E Ho. destruct l1 as [|x l1]; cbn [app] in E; inversion E; subst.
+    + congruence.
+    + eapply H2; [reflexivity|exact Ho].
+Qed.
+
+Lemma classify_step_rr cf sn cn x st part s :
+  cinv st -> rr_inv s st -> rr_inv s (fst (classify_step cf sn cn x (st, part))).
+Proof.
+  intros I [R1 R2]. destruct x as [sg o]. unfold classify_step, rr_inv.
+  destruct (classify_key cf sg o) as [[kf kb] sr].
+  destruct (kget (r_map (cs_reg st)) (kf, kb)) as [gid|] eqn:Eg.
+  - destruct ((kf =? MISS) && (kb =? MISS)) eqn:Eo; cbn [fst cs_reg cs_log set_reg r_rgc].
+    + assert (Ek : (kf, kb) = orphan_key) by (unfold orphan_key; f_equal; lia). rewrite Ek.
+      split.
+      * unfold orph_count in *. cbn [filter]. unfold is_orph at 1. cbn [fst snd]. rewrite key_eqb_refl. cbn [length].
+        unfold wrap32. rewrite NRAW_eq, two32_eq in *. lia.
+      * intros l1 e l2 E Ho. destruct l1 as [|y l1]; cbn [app] in E; inversion E; subst.
+        -- cbn [snd]. exact R1.
+        -- match goal with H : cs_log st = _ |- _ => exact (R2 _ _ _ H Ho) end.
+    + apply rr_cons_other; [|split; assumption]. unfold is_orph. cbn [fst snd]. apply key_eqb_neq. unfold orphan_key. intro E. inversion E. lia.
+  - destruct (split_attempt cf (r_map (cs_reg st)) sg o kf kb sr sn cn part) as [[adds incr]|] eqn:Es.
+    + cbn [fst cs_reg cs_log]. apply split_attempt_cases in Es.
+      destruct Es as [(g1 & p1 & k1 & g2 & p2 & k2 & -> & _ & _ & _ & _ & _ & _ & _ & _ & N1 & N2)|(g1 & p1 & k1 & -> & _ & _ & _ & _ & _ & N1)];
+        cbn [map rev app fst snd].
+      * apply rr_cons_other; [unfold is_orph; cbn [fst snd]; apply key_eqb_neq; exact N2|].
+        apply rr_cons_other; [unfold is_orph; cbn [fst snd]; apply key_eqb_neq; exact N1|]. split; assumption.
+      * apply rr_cons_other; [unfold is_orph; cbn [fst snd]; apply key_eqb_neq; exact N1|]. split; assumption.
+    + unfold register_key. rewrite Eg. cbn [fst cs_reg cs_log set_reg r_rgc].
+      apply rr_cons_other; [|split; assumption]. unfold is_orph. cbn [fst snd]. apply key_eqb_neq. intro E.
+      rewrite E, (mi_orph _ _ (ci_m _ I)) in Eg. discriminate.
+Qed.
+
+Lemma fold_steps_rr cf sn cn l st part s :
+  cinv st -> nowrap_st (fst (fold_steps cf sn cn l (st, part))) -> rr_inv s st -> rr_inv s (fst (fold_steps cf sn cn l (st, part))).
+Proof.
+  revert st part. induction l as [|x l IH]; intros st part I Hw R; unfold fold_steps in *; cbn [fold_left fst] in *; [exact R|].
+  destruct (classify_step cf sn cn x (st, part)) as [st1 part1] eqn:E.
+  assert (Hw1 : nowrap_st st1).
+  { apply nowrap_st_eq. apply nowrap_st_eq in Hw. destruct (fold_steps_mono cf sn cn l st1 part1) as [M _]. unfold fold_steps in M. lia. }
+  apply IH; [| exact Hw |].
+  - pose proof (classify_step_inv cf sn cn x st part I) as H. rewrite E in H. apply H. exact Hw1.
+  - pose proof (classify_step_rr cf sn cn x st part s I R) as H. rewrite E in H. exact H.
+Qed.
+Lemma classify_all_rr cf l st s :
+  cinv st -> nowrap_st (fold_left (classify_contig cf) l st) -> rr_inv s st -> rr_inv s (fold_left (classify_contig cf) l st).
+Proof.
+  revert st. induction l as [|c l IH]; intros st I Hw R; cbn [fold_left] in *; [exact R|].
+  assert (Hw1 : nowrap_st (classify_contig cf st c)).
+  { apply nowrap_st_eq. apply nowrap_st_eq in Hw. destruct (classify_all_mono cf l (classify_contig cf st c)) as [M _]. lia. }
+  apply IH; [apply classify_contig_inv; assumption|exact Hw|].
+  rewrite classify_contig_eq in *. apply fold_steps_rr; assumption.
+Qed.
+
+(* in classification order *)
+Definition rr_list (s : N) (lg : list (placed * key * N)) : Prop :=
+  forall l1 e l2, lg = l1 ++ e :: l2 -> is_orph e = true -> snd e = (s + N.of_nat (orph_count l1)) mod NRAW.
+
+Lemma round_rr cf ord r contigs r' out lg :
+  wf r -> perm_ord ord -> round cf ord r contigs = (r', out, lg) -> nowrap r' ->
+  rr_list (r_rgc r) lg /\ r_rgc r' mod NRAW = (r_rgc r + N.of_nat (orph_count lg)) mod NRAW.
+Proof.
+  intros W Po E Hw.
+  assert (Hst : nowrap (cs_reg (classify_round cf ord r contigs))).
+  { eapply nowrap_ext; [|exact Hw]. pose proof (round_ext0 cf ord r contigs) as X. rewrite E in X. cbn [fst] in X.
+    (* the map after the round extends the map after classification *)
+    revert E. unfold round. set (st := classify_round cf ord r contigs).
+    destruct (cs_vl st); [intro E; inversion E; subst; apply extends_refl|].
+    cbn [process_new pn_assign pn_move]. destruct (place_all _ _ _ _) as [[bufs' ss'] out']. intro E. inversion E; subst. cbn [r_map].
+    apply fold_or_insert_ext. }
+  assert (R : rr_inv (r_rgc r) (classify_round cf ord r contigs) /\ r_rgc r' = r_rgc (cs_reg (classify_round cf ord r contigs))
+              /\ lg = rev (cs_log (classify_round cf ord r contigs))).
+  { split; [|revert E; unfold round; destruct (cs_vl (classify_round cf ord r contigs));
+             [intro E; inversion E; subst; split; reflexivity|];
+             cbn [process_new pn_assign pn_move]; destruct (place_all _ _ _ _) as [[bufs' ss'] out']; intro E; inversion E; subst;
+             cbn [r_rgc]; split; reflexivity].
+    revert Hst. unfold classify_round. destruct contigs as [|c0 cs].
+    - intros _. unfold rr_inv, cstate_of. cbn [cs_reg cs_log]. split; [unfold orph_count; cbn; f_equal; lia|].
+      intros l1 e l2 E0. destruct l1; discriminate.
+    - set (st := fold_left (classify_contig cf) (sort_contigs (c0 :: cs)) (cstate_of r)).
+      destruct (process_new (r_map (cs_reg st)) (r_gc (cs_reg st)) (r_vlen (cs_reg st)) (cs_vl st) (ord (rev (cs_news st))))
+        as [[[m' next'] vlen'] vl'] eqn:Ep. cbn [cs_reg set_reg r_map]. intro Hm.
+      assert (Hst : nowrap_st st).
+      { unfold nowrap_st. eapply nowrap_ext; [|exact Hm]. cbn [r_map]. eapply process_new_ext. exact Ep. }
+      pose proof (classify_all_rr cf (sort_contigs (c0 :: cs)) (cstate_of r) (r_rgc r) (cinv_of_wf r W) Hst) as H.
+      fold st in H. unfold rr_inv in *. cbn [cs_reg cs_log set_reg r_rgc]. apply H.
+      unfold cstate_of. cbn [cs_reg cs_log]. split; [unfold orph_count; cbn; f_equal; lia|].
+      intros l1 e l2 E0. destruct l1; discriminate. }
+  destruct R as ([R1 R2] & Er & El). subst lg. rewrite Er. split.
+  - intros l1 e l2 E0 Ho.
+    assert (E1 : cs_log (classify_round cf ord r contigs) = rev l2 ++ e :: rev l1).
+    { rewrite <- (rev_involutive (cs_log _)), E0, rev_app_distr. cbn [rev]. rewrite <- app_assoc. reflexivity. }
+    rewrite (R2 _ _ _ E1 Ho), orph_count_rev. reflexivity.
+  - rewrite orph_count_rev. exact R1.
+Qed.
+
+Lemma app_split_later {A} (lg rest l1 l2 : list A) e :
+  lg ++ rest = l1 ++ e :: l2 -> (length lg <= length l1)%nat -> exists l1', l1 = lg ++ l1' /\ rest = l1' ++ e :: l2.
+Proof.
+  revert l1. induction lg as [|a lg IH]; intros l1 E L; cbn [app length] in *.
+  - exists l1. split; [reflexivity|exact E].
+  - destruct l1 as [|a' l1]; cbn [length app] in *; [lia|]. inversion E; subst.
+    destruct (IH l1 H1 ltac:(lia)) as (l1' & -> & E2). exists l1'. split; [reflexivity|exact E2].
+Qed.
+Lemma app_split_here {A} (lg rest l1 l2 : list A) e :
+  lg ++ rest = l1 ++ e :: l2 -> (length l1 < length lg)%nat -> exists l2', lg = l1 ++ e :: l2'.
+Proof.
+  revert l1. induction lg as [|a lg IH]; intros l1 E L; cbn [app length] in *; [lia|].
+  destruct l1 as [|a' l1]; cbn [length app] in *.
+  - inversion E; subst. exists lg. reflexivity.
+  - inversion E; subst. destruct (IH l1 H1 ltac:(lia)) as (l2' & ->). exists l2'. reflexivity.
+Qed.
+
+Lemma mod16_shift x y a b : x mod 16 = (y + a) mod 16 -> (x + b) mod 16 = (y + (a + b)) mod 16.
+Proof. intro H. lia. Qed.
+
+Lemma run_rr cf ord : perm_ord ord -> forall rounds r r' outs lgs,
+  wf r -> run_rounds cf ord r rounds = (r', outs, lgs) -> nowrap r' ->
+  rr_list (r_rgc r) (concat lgs) /\ r_rgc r' mod NRAW = (r_rgc r + N.of_nat (orph_count (concat lgs))) mod NRAW.
+Proof.
+  intros Po. induction rounds as [|c tl IH]; intros r r' outs lgs W E Hw; cbn [run_rounds] in E.
+  - inversion E; subst. cbn [concat]. split; [intros l1 e l2 E0; destruct l1; discriminate|]. unfold orph_count. cbn. f_equal. lia.
+  - destruct (round cf ord r c) as [[r1 out] lg] eqn:E1.
+    destruct (run_rounds cf ord r1 tl) as [[r2 outs2] lgs2] eqn:E2. inversion E; subst r' outs lgs; clear E.
+    assert (X12 : extends (r_map r1) (r_map r2)) by (pose proof (run_ext0 cf ord tl r1) as H; rewrite E2 in H; exact H).
+    assert (Hw1 : nowrap r1) by (eapply nowrap_ext; eassumption).
+    destruct (round_spec cf ord r c r1 out lg W Po E1 Hw1) as (W1 & _).
+    destruct (round_rr cf ord r c r1 out lg W Po E1 Hw1) as (A1 & A2).
+    destruct (IH r1 r2 outs2 lgs2 W1 E2 Hw) as (B1 & B2). cbn [concat]. split.
+    + intros l1 e l2 E0 Ho.
+      (* the entry is in this round's log or in a later one *)
+      destruct (Nat.le_gt_cases (length lg) (length l1)) as [Hl|Hl].
+      * destruct (app_split_later _ _ _ _ _ E0 Hl) as (l1' & -> & E3).
+        rewrite (B1 _ _ _ E3 Ho), orph_count_app, Nat2N.inj_add.
+        rewrite NRAW_eq in A2 |- *. apply mod16_shift. exact A2.
+      * destruct (app_split_here _ _ _ _ _ E0 Hl) as (l2' & E3). exact (A1 _ _ _ E3 Ho).
+    + rewrite orph_count_app, Nat2N.inj_add. rewrite NRAW_eq in A2, B2 |- *. rewrite B2. apply mod16_shift. exact A2.
+Qed.
+
+(* =====================================================================================================
+   The pinned statements (props/C01R.v) *)
+Definition run_ok (cf : config) (ord : list (key * placed) -> list (key * placed)) (rounds : list (list contig))
+           (r : reg) (outs : list (list (N * placed))) (lgs : list (list (placed * key * N))) : Prop :=
+  perm_ord ord /\ run_rounds cf ord reg_init rounds = (r, outs, lgs) /\ nowrap r.
+
+Lemma run_ok_spec cf ord rounds r outs lgs : run_ok cf ord rounds r outs lgs ->
+  wf r /\
+  (forall e, In e (concat lgs) -> entry_ok (r_map r) e) /\
+  Forall2 (fun out lg => Permutation (map snd out) (map (fun e => fst (fst e)) lg)) outs lgs /\
+  Forall2 (stored_rel (r_map r) (r_bufs r)) outs lgs /\
+  (forall p g, In (p, orphan_key, g) (concat lgs) -> kget (r_map r) (g, MISS) <> None).
+Proof.
+  intros (Po & E & Hw). destruct (run_spec cf ord Po rounds reg_init r outs lgs wf_init E Hw) as (W & _ & _ & L & P & S & C).
+  split; [exact W|]. split; [exact L|]. split; [exact P|]. split; [exact S|exact C].
+Qed.
+
+Theorem registry_injective_proof : forall cf ord rounds r outs lgs, run_ok cf ord rounds r outs lgs ->
+  forall k1 k2 g, NRAW <= g -> In (k1, g) (r_map r) -> In (k2, g) (r_map r) -> k1 = k2.
+Proof.
+  intros cf ord rounds r outs lgs H k1 k2 g L H1 H2. destruct (run_ok_spec _ _ _ _ _ _ H) as (W & _).
+  exact (minv_inj _ _ _ _ _ (wf_m _ W) L H1 H2).
+Qed.
+
+Theorem registry_dense_proof : forall cf ord rounds r outs lgs, run_ok cf ord rounds r outs lgs ->
+  lz_gids (r_map r) = seqN NRAW (length (lz_gids (r_map r))) /\
+  r_gc r = NRAW + lenN (lz_gids (r_map r)) /\
+  NoDup (map fst (r_map r)) /\
+  (forall g, NRAW <= g < r_gc r -> exists k, kget (r_map r) k = Some g) /\
+  (forall k g, kget (r_map r) k = Some g -> g < r_gc r).
+Proof.
+  intros cf ord rounds r outs lgs H. destruct (run_ok_spec _ _ _ _ _ _ H) as (W & _). pose proof (wf_m _ W) as I.
+  split; [exact (mi_lz _ _ I)|]. split; [exact (mi_gc _ _ I)|]. split; [exact (mi_keys _ _ I)|]. split.
+  - intros g Hg. assert (Hin : In g (lz_gids (r_map r))).
+    { rewrite (mi_lz _ _ I). apply seqN_In. rewrite (mi_gc _ _ I) in Hg. unfold lenN in Hg. lia. }
+    apply lz_gids_In in Hin. destruct Hin as (_ & k & Hk). exists k. apply In_kget; [exact (mi_keys _ _ I)|exact Hk].
+  - intros k g Hk. apply kget_In in Hk. destruct (minv_value_lt _ _ _ _ I Hk) as [L|L]; [|lia].
+    rewrite (mi_gc _ _ I). lia.
+Qed.
+
+Theorem map_monotone_proof : forall cf ord rounds r k g,
+  kget (r_map r) k = Some g -> kget (r_map (fst (fst (run_rounds cf ord r rounds)))) k = Some g.
+Proof. intros cf ord rounds r k g H. eapply extends_kget; [apply run_ext0|exact H]. Qed.
+
+Theorem add_known_never_drops_proof : forall cf ord rounds r outs lgs, run_ok cf ord rounds r outs lgs ->
+  Forall2 (fun out lg => Permutation (map snd out) (map (fun e => fst (fst e)) lg)) outs lgs.
+Proof. intros cf ord rounds r outs lgs H. destruct (run_ok_spec _ _ _ _ _ _ H) as (_ & _ & P & _). exact P. Qed.
+
+(* reachable registries *)
+Definition reach (cf : config) (ord : list (key * placed) -> list (key * placed)) (r : reg) : Prop :=
+  exists rounds outs lgs, run_rounds cf ord reg_init rounds = (r, outs, lgs).
+Lemma reach_wf cf ord r : perm_ord ord -> reach cf ord r -> nowrap r -> wf r.
+Proof.
+  intros Po (rounds & outs & lgs & E) Hw. destruct (run_spec cf ord Po rounds reg_init r outs lgs wf_init E Hw) as (W & _). exact W.
+Qed.
+
+Theorem process_new_allocates_nothing_proof : forall cf ord r contigs, perm_ord ord -> reach cf ord r ->
+  let st := fold_left (classify_contig cf) (sort_contigs contigs) (cstate_of r) in
+  nowrap (cs_reg st) ->
+  exists vl', process_new (r_map (cs_reg st)) (r_gc (cs_reg st)) (r_vlen (cs_reg st)) (cs_vl st) (ord (rev (cs_news st)))
+              = (r_map (cs_reg st), r_gc (cs_reg st), r_vlen (cs_reg st), vl').
+Proof.
+  intros cf ord r contigs Po Hr st Hw.
+  assert (W : wf r).
+  { apply (reach_wf cf ord r Po Hr). eapply nowrap_ext; [|exact Hw]. exact (classify_all_ext cf (sort_contigs contigs) (cstate_of r)). }
+  assert (I : cinv st) by (apply classify_all_inv; [apply cinv_of_wf; exact W|exact Hw]).
+  eexists. apply process_new_present; [exact (proj1 (ci_vlen _ I))|].
+  intros k p Hin. apply (news_present_lt st I k p). apply in_rev. eapply Permutation_in; [apply Permutation_sym; apply Po|exact Hin].
+Qed.
+
+Theorem missing_fallback_unreachable_proof : forall cf ord r contigs, perm_ord ord -> reach cf ord r ->
+  let st := classify_round cf ord r contigs in
+  nowrap (cs_reg st) ->
+  forall g p, In (g, p) (cs_vl st) ->
+    g < r_vlen (cs_reg st) /\
+    (NRAW <= g -> exists k, rev_get (r_map (cs_reg st)) g None = Some k /\ In (k, g) (r_map (cs_reg st))).
+Proof.
+  intros cf ord r contigs Po Hr st Hw g p Hin.
+  assert (W : wf r) by (apply (reach_wf cf ord r Po Hr); eapply nowrap_ext; [apply classify_round_ext0|exact Hw]).
+  destruct (classify_round_spec cf ord r contigs W Po Hw) as (I & _). fold st in I.
+  pose proof (ci_vl _ I g p Hin) as Hok. destruct (ci_vlen _ I) as [V1 V2].
+  split; [eapply gid_ok_lt; [exact (ci_m _ I)|exact V1|exact V2|exact Hok]|].
+  intro L. destruct (key_of_gid_bkey _ _ Hok) as [[L' _]|[_ Hk]]; [lia|].
+  unfold key_of_gid in Hk. destruct (N.ltb_spec g NRAW); [lia|].
+  destruct (rev_get (r_map (cs_reg st)) g None) as [k|] eqn:E.
+  - exists k. split; [reflexivity|exact Hk].
+  - exfalso. eapply rev_get_some; [|exact E]. right. destruct Hok as [Hok|Hok]; [lia|exact Hok].
+Qed.
+
+Lemma wf_buf_gids r : wf r -> NoDup (map (fun kb => b_gid (snd kb)) (r_bufs r)).
+Proof.
+  intro W. pose proof (wf_bkeys _ W) as ND. pose proof (wf_bufs _ W) as HB. pose proof (wf_m _ W) as I.
+  induction (r_bufs r) as [|[k b] l IH]; cbn [map fst snd] in *; [constructor|].
+  inversion ND as [|x0 l0 Hnk NDl]; subst. constructor.
+  - intro Hin. apply in_map_iff in Hin. destruct Hin as ([k' b'] & E & Hin). cbn [snd] in E.
+    assert (k' = k).
+    { destruct (HB k b (or_introl eq_refl)) as [[L1 E1]|[L1 G1]], (HB k' b' (or_intror Hin)) as [[L2 E2]|[L2 G2]].
+      - congruence.
+      - lia.
+      - lia.
+      - rewrite E in G2. exact (minv_inj _ _ _ _ _ I L1 G2 G1). }
+    subst k'. apply Hnk. apply in_map_iff. exists (k, b'). split; [reflexivity|exact Hin].
+  - apply IH; [exact NDl|]. intros k' b' H. apply HB. right. exact H.
+Qed.
+
+Theorem buffer_per_group_proof : forall cf ord rounds r outs lgs, run_ok cf ord rounds r outs lgs ->
+  NoDup (map fst (r_bufs r)) /\ NoDup (map (fun kb => b_gid (snd kb)) (r_bufs r)) /\
+  (forall k b, In (k, b) (r_bufs r) -> (b_gid b < NRAW /\ k = (b_gid b, MISS)) \/ (NRAW <= b_gid b /\ kget (r_map r) k = Some (b_gid b))).
+Proof.
+  intros cf ord rounds r outs lgs H. destruct (run_ok_spec _ _ _ _ _ _ H) as (W & _).
+  split; [exact (wf_bkeys _ W)|]. split; [exact (wf_buf_gids r W)|].
+  intros k b Hin. destruct (wf_bufs _ W k b Hin) as [H1|[H1 H2]]; [left; exact H1|right; split; [exact H1|]].
+  apply In_kget; [exact (mi_keys _ _ (wf_m _ W))|exact H2].
+Qed.
+
+Theorem buffers_persist_proof : forall cf ord r rounds r' outs lgs, perm_ord ord -> reach cf ord r ->
+  run_rounds cf ord r rounds = (r', outs, lgs) -> nowrap r' ->
+  forall k b, kget (r_bufs r) k = Some b -> kget (r_bufs r') k = Some b.
+Proof.
+  intros cf ord r rounds r' outs lgs Po Hr E Hw.
+  assert (W : wf r).
+  { apply (reach_wf cf ord r Po Hr). eapply nowrap_ext; [|exact Hw]. pose proof (run_ext0 cf ord rounds r) as X. rewrite E in X. exact X. }
+  destruct (run_spec cf ord Po rounds r r' outs lgs W E Hw) as (_ & _ & B & _). exact B.
+Qed.
+
+(* where a classified segment is stored: under the buffer of its group's key; the buffer's group id is the classified
+   one except for the colliding pair (raw group x, the LZ group registered under the key (x, MISSING)) *)
+Definition label_rel (m : list (key * N)) (g lbl : N) : Prop :=
+  lbl = g \/ (g < NRAW /\ NRAW <= lbl /\ kget m (g, MISS) = Some lbl) \/ (NRAW <= g /\ lbl < NRAW /\ kget m (lbl, MISS) = Some g).
+
+Theorem stored_label_proof : forall cf ord rounds r outs lgs, run_ok cf ord rounds r outs lgs ->
+  Forall2 (fun out lg => forall lbl p, In (lbl, p) out ->
+             exists k g kb b, In (p, k, g) lg /\ kget (r_bufs r) kb = Some b /\ b_gid b = lbl /\
+                              label_rel (r_map r) g lbl /\ (snd k <> MISS -> lbl = g)) outs lgs.
+Proof.
+  intros cf ord rounds r outs lgs H. destruct (run_ok_spec _ _ _ _ _ _ H) as (W & L & _ & S & _).
+  pose proof (wf_m _ W) as I.
+  assert (Hl : forall lg, In lg lgs -> forall e, In e lg -> entry_ok (r_map r) e).
+  { intros lg Hlg e He. apply L. apply in_concat. exists lg. split; assumption. }
+  revert Hl. clear L. induction S as [|out lg outs lgs S1 S IH]; intro Hl; constructor.
+  - intros lbl p Hin. destruct (S1 lbl p Hin) as (g & kb & b & Hp & Hk & Hb & Hg).
+    apply in_map_iff in Hp. destruct Hp as ([[p' k] g'] & Ep & He). unfold log_pair in Ep. cbn [fst snd] in Ep. inversion Ep; subst p' g'.
+    exists k, g, kb, b. split; [exact He|]. split; [exact Hb|]. split; [exact Hg|].
+    pose proof (Hl lg (or_introl eq_refl) _ He) as Hent.
+    pose proof (wf_bufs _ W kb b (kget_In _ _ _ Hb)) as Hbuf. rewrite Hg in Hbuf.
+    assert (Hrel : label_rel (r_map r) g lbl).
+    { destruct Hk as [[L1 E1]|[L1 H1]], Hbuf as [[L2 E2]|[L2 H2]].
+      - left. rewrite E1 in E2. inversion E2. reflexivity.
+      - right. left. split; [exact L1|]. split; [exact L2|]. subst kb. apply In_kget; [exact (mi_keys _ _ I)|exact H2].
+      - right. right. split; [exact L1|]. split; [exact L2|]. subst kb. apply In_kget; [exact (mi_keys _ _ I)|exact H1].
+      - left. pose proof (In_kget _ _ _ (mi_keys _ _ I) H1) as A. pose proof (In_kget _ _ _ (mi_keys _ _ I) H2) as B. congruence. }
+    split; [exact Hrel|]. intro Hs.
+    (* a key with a back k-mer is neither the orphan key nor a raw buffer key *)
+    assert (Hkg : kget (r_map r) k = Some g).
+    { destruct Hent as [[Eo _]|Hent]; cbn [fst snd] in *; [subst k; exfalso; apply Hs; reflexivity|exact Hent]. }
+    destruct Hrel as [E|[(L1 & L2 & E)|(L1 & L2 & E)]]; [exact E| |].
+    + exfalso. destruct (mi_raw _ _ I k g (kget_In _ _ _ Hkg) L1) as [[E1 _]|E1]; subst k; apply Hs; reflexivity.
+    + exfalso. pose proof (minv_inj _ _ _ _ _ I L1 (kget_In _ _ _ Hkg) (kget_In _ _ _ E)) as E1. subst k. apply Hs. reflexivity.
+  - apply IH. intros lg' Hlg'. apply Hl. right. exact Hlg'.
+Qed.
+
+Theorem case2_key_rule_proof : forall cf s o, rs_front s <> MISS -> rs_back s <> MISS ->
+  classify_key cf s o = (N.min (rs_front s) (rs_back s), N.max (rs_front s) (rs_back s), negb (rs_front s <? rs_back s)).
+Proof.
+  intros cf s o Hf Hb. unfold classify_key.
+  assert (E : negb (rs_front s =? MISS) && negb (rs_back s =? MISS) = true) by lia. rewrite E.
+  destruct (N.ltb_spec (rs_front s) (rs_back s)); cbn [negb]; f_equal; try f_equal; lia.
+Qed.
+
+Theorem same_key_same_group_proof : forall cf ord rounds r outs lgs, run_ok cf ord rounds r outs lgs ->
+  forall p1 p2 k g1 g2, In (p1, k, g1) (concat lgs) -> In (p2, k, g2) (concat lgs) -> k <> orphan_key ->
+  g1 = g2 /\ kget (r_map r) k = Some g1.
+Proof.
+  intros cf ord rounds r outs lgs H p1 p2 k g1 g2 H1 H2 Hk. destruct (run_ok_spec _ _ _ _ _ _ H) as (_ & L & _).
+  destruct (L _ H1) as [[E _]|E1]; cbn [fst snd] in *; [contradiction|].
+  destruct (L _ H2) as [[E _]|E2]; cbn [fst snd] in *; [contradiction|]. split; [congruence|exact E1].
+Qed.
+
+Theorem orphans_round_robin_proof : forall cf ord rounds r outs lgs, run_ok cf ord rounds r outs lgs ->
+  (forall l1 p g l2, concat lgs = l1 ++ (p, orphan_key, g) :: l2 -> g = N.of_nat (orph_count l1) mod NRAW) /\
+  r_rgc r mod NRAW = N.of_nat (orph_count (concat lgs)) mod NRAW.
+Proof.
+  intros cf ord rounds r outs lgs (Po & E & Hw). destruct (run_rr cf ord Po rounds reg_init r outs lgs wf_init E Hw) as (A & B).
+  cbn [reg_init r_rgc] in A, B. split.
+  - intros l1 p g l2 E0. rewrite (A _ _ _ E0); [cbn [snd]; f_equal; lia|]. unfold is_orph. cbn [fst snd]. apply key_eqb_refl.
+  - rewrite B. f_equal. lia.
+Qed.
+
+Theorem raw_groups_only_orphans_proof : forall cf ord rounds r outs lgs, run_ok cf ord rounds r outs lgs ->
+  forall p k g, In (p, k, g) (concat lgs) -> g < NRAW -> k = orphan_key \/ (k = (g, MISS) /\ kget (r_map r) (g, MISS) = Some g).
+Proof.
+  intros cf ord rounds r outs lgs H p k g Hin L. destruct (run_ok_spec _ _ _ _ _ _ H) as (W & Le & _).
+  destruct (Le _ Hin) as [[E _]|E]; cbn [fst snd] in *; [left; exact E|].
+  destruct (mi_raw _ _ (wf_m _ W) k g (kget_In _ _ _ E) L) as [[E1 _]|E1]; [left; exact E1|right]. subst k. split; [reflexivity|exact E].
+Qed.
+
+Theorem raw_key_copied_proof : forall cf ord rounds r outs lgs, run_ok cf ord rounds r outs lgs ->
+  forall p g, In (p, orphan_key, g) (concat lgs) ->
+  kget (r_map r) (g, MISS) = Some g \/ exists G, NRAW <= G /\ kget (r_map r) (g, MISS) = Some G.
+Proof.
+  intros cf ord rounds r outs lgs H p g Hin. destruct (run_ok_spec _ _ _ _ _ _ H) as (W & Le & _ & _ & C).
+  pose proof (C p g Hin) as Hc. destruct (kget (r_map r) (g, MISS)) as [G|] eqn:E; [|contradiction].
+  destruct (N.ltb_spec G NRAW) as [L|L]; [left|right; exists G; split; [exact L|reflexivity]].
+  destruct (mi_raw _ _ (wf_m _ W) _ _ (kget_In _ _ _ E) L) as [[E1 _]|E1].
+  - unfold orphan_key in E1. inversion E1. f_equal.
+    destruct (Le _ Hin) as [[_ Lg]|Eg]; cbn [fst snd] in *.
+    + rewrite MISS_eq, NRAW_eq in *. lia.
+    + rewrite (mi_orph _ _ (wf_m _ W)) in Eg. inversion Eg. rewrite MISS_eq in *. lia.
+  - inversion E1. f_equal. congruence.
+Qed.
